@@ -36,13 +36,15 @@ func newWireConn() *vWireConn {
 	return w
 }
 
-func (w *vWireConn) Context() ConnContext                          { return w.ctx }
-func (w *vWireConn) Close() status.Status                          { return status.OK }
-func (w *vWireConn) Closed() async.Flag                            { return w.closed }
-func (w *vWireConn) OnClosed(fn func()) (func(), bool)             { return func() {}, true }
-func (w *vWireConn) Channel(ctx async.Context) (Channel, status.Status) { return nil, status.Errorf("unsupported") }
-func (w *vWireConn) Free()                                         {}
-func (w *vWireConn) run() status.Status                            { return status.OK }
+func (w *vWireConn) Context() ConnContext              { return w.ctx }
+func (w *vWireConn) Close() status.Status              { return status.OK }
+func (w *vWireConn) Closed() async.Flag                { return w.closed }
+func (w *vWireConn) OnClosed(fn func()) (func(), bool) { return func() {}, true }
+func (w *vWireConn) Channel(ctx async.Context) (Channel, status.Status) {
+	return nil, status.Errorf("unsupported")
+}
+func (w *vWireConn) Free()              {}
+func (w *vWireConn) run() status.Status { return status.OK }
 
 func (w *vWireConn) send(ctx async.Context, msg pmpx.Message) status.Status {
 	raw := append([]byte{}, msg.Unwrap().Raw()...)
@@ -90,20 +92,20 @@ func (e VFlowEvent) String() string {
 
 // VFlowAbs is the abstraction of the joint state (also the state key of the search and the TLA+ state).
 type VFlowAbs struct {
-	Win       int32   `json:"win"`
-	Opened    bool    `json:"opened"`
-	Blocked   int     `json:"blocked"` // size of the Send that is waiting, 0 if none
-	Wake      int     `json:"wake"`
-	DataWire  []int   `json:"dataWire"` // payload sizes; a closing frame is size+1000000
-	Queue     []int   `json:"queue"`
-	Recv      int32   `json:"recv"`
-	AckWire   []int32 `json:"ackWire"`
-	ClosedS   bool    `json:"closedS"`
-	ClosedR   bool    `json:"closedR"`
-	Returned  int     `json:"returned"` // number of Send/SendAndClose calls that returned
-	LastSt    string  `json:"lastSt,omitempty"`
-	Problems  []string `json:"problems,omitempty"`
-	Outstanding int   `json:"outstanding"`
+	Win         int32    `json:"win"`
+	Opened      bool     `json:"opened"`
+	Blocked     int      `json:"blocked"` // size of the Send that is waiting, 0 if none
+	Wake        int      `json:"wake"`
+	DataWire    []int    `json:"dataWire"` // payload sizes; a closing frame is size+1000000
+	Queue       []int    `json:"queue"`
+	Recv        int32    `json:"recv"`
+	AckWire     []int32  `json:"ackWire"`
+	ClosedS     bool     `json:"closedS"`
+	ClosedR     bool     `json:"closedR"`
+	Returned    int      `json:"returned"` // number of Send/SendAndClose calls that returned
+	LastSt      string   `json:"lastSt,omitempty"`
+	Problems    []string `json:"problems,omitempty"`
+	Outstanding int      `json:"outstanding"`
 }
 
 func (a VFlowAbs) Key() string {
